@@ -28,8 +28,11 @@ pub fn universe() -> Vec<Vec<u8>> {
         b"aab".to_vec(),
         b"a\xff".to_vec(),
         b"\xff\xff".to_vec(),
+        // thorough only: shared prefix and suffix of >= 16 bytes (the delta encoder's long keep / add forms)
+        b"aaaaaaaaaaaaaaaaaa".to_vec(),
+        b"aaaaaaaaaaaaaaaaaa\x00bbbbbbbbbbbbbbbbbb".to_vec(),
     ];
-    u.truncate(12);
+    u.truncate(14);
     u
 }
 
@@ -847,7 +850,7 @@ pub fn run(ctx: &Ctx) -> Report {
     quiet_panics();
     let mut rep = Report::new("model_checking");
     let thorough = ctx.tier.is_thorough();
-    let nuni = if thorough { 12 } else { 9 };
+    let nuni = if thorough { 14 } else { 9 };
     let block_lens: [Option<usize>; 3] = [Some(1), Some(16), None];
     #[derive(Clone)]
     enum W {
@@ -889,8 +892,8 @@ pub fn run(ctx: &Ctx) -> Report {
             }
         }
     }
-    // merges: all pairs of subsets of a 6-key universe (thorough 7), all triples of a 4-key universe
-    let mu = if thorough { 7 } else { 5 };
+    // merges: all pairs of subsets of a 5-key universe (thorough 8), all triples of a 4-key universe
+    let mu = if thorough { 8 } else { 5 };
     for a in 0..(1u32 << mu) {
         for b in 0..(1u32 << mu) {
             for bl in [Some(1), None] {
